@@ -135,6 +135,22 @@ def sourceFacts : List (String × String) := [
   ("readFrame", "g=[head.length<0;head.length>maxFrameSize;cap(f.readBuffer)>=head.length]u=[f.readBuffer[:head.length]]m=[make([]byte,head.length)]p=[]"),
   ("parseFrame", "g=[]u=[]m=[]p=[r]")]
 
+/-- the entries of `sourceFacts` that props/C05.fix-{2,3,4,7,9}.diff change (fix-9 moves readTypeInfo's
+body into readTypeInfoDepth) -/
+def sourceFactsFixed : List (String × String) := [
+  ("readBytesInternal", "g=[len(f.buf)<4;len(f.buf)<size]u=[f.buf[:size];f.buf[size:]]m=[]p=[]"),
+  ("readInetAdressOnly", "g=[len(f.buf)<1;len(f.buf)<int(size)]u=[f.buf[0];f.buf[1:];f.buf[:size];f.buf[size:]]m=[make([]byte,size)]p=[error;error;error]"),
+  ("readTypeInfo", "g=[]u=[]m=[]p=[]"),
+  ("parsePreparedMetadata", "g=[meta.colCount<0;pkeyCount<0||pkeyCount*2>len(f.buf);meta.colCount<1000]u=[]m=[make([]int,pkeyCount);make([]ColumnInfo,meta.colCount)]p=[error;error]")]
+
+def sourceFact (fx : Bool) (name : String) : String :=
+  match (if fx then sourceFactsFixed.find? (fun p => p.1 == name) else none) with
+  | some p => p.2
+  | none =>
+    match sourceFacts.find? (fun p => p.1 == name) with
+    | some p => p.2
+    | none => "absent"
+
 /-- big-endian value -/
 def be (bs : Bytes) : Nat := bs.foldl (fun acc b => acc * 256 + b) 0
 
